@@ -111,6 +111,27 @@ func describeVal(v ssa.Value, params map[ssa.Value]string, depth int) string {
 		return "phi"
 	case *ssa.Parameter:
 		return "param:" + x.Name()
+	case *ssa.FieldAddr:
+		if pt, ok := x.X.Type().Underlying().(*types.Pointer); ok {
+			if st, ok := pt.Elem().Underlying().(*types.Struct); ok {
+				return describeVal(x.X, params, depth+1) + "." + st.Field(x.Field).Name()
+			}
+		}
+	case *ssa.Alloc:
+		// the spill slot of a by-value parameter: written once, at entry, with the parameter
+		var src ssa.Value
+		n := 0
+		if refs := x.Referrers(); refs != nil {
+			for _, ref := range *refs {
+				if st, ok := ref.(*ssa.Store); ok && st.Addr == ssa.Value(x) {
+					n++
+					src = st.Val
+				}
+			}
+		}
+		if prm, ok := src.(*ssa.Parameter); ok && n == 1 {
+			return "param:" + prm.Name()
+		}
 	}
 	return "?" + v.Name()
 }
@@ -679,6 +700,39 @@ func sweepAgreement(p *Prog, pc *PropConfig, tags string, r *checkResult) {
 		whyAlph = "RawCBOR must be rendered with base64.StdEncoding by the JSON encoder and by the CBOR decoder alike; found: " + strings.Join(parts, "; ")
 	}
 	s.oblige(fieldList, "agreement", "base64 alphabet", fieldList.Pos(), okAlph, whyAlph)
+	// --- network prefix (tag 261): the binary build writes the address bytes and the mask length of the
+	// value exactly as given; the JSON build prints that same value with net.IPNet.String. Any
+	// normalisation on one side only (To4, masking, a different mask width) makes the two disagree for
+	// the non-canonical forms.
+	if tags == "binary_log" {
+		var pfxFn *ssa.Function
+		for _, fn := range p.AllFns {
+			if fn.String() == "("+p.ModPath+"/internal/cbor.Encoder).AppendIPPrefix" {
+				pfxFn = fn
+			}
+		}
+		if pfxFn == nil {
+			r.errors = append(r.errors, "agreement sweep: cbor Encoder.AppendIPPrefix not found")
+		} else {
+			var got []string
+			for _, b := range pfxFn.Blocks {
+				for _, in := range b.Instrs {
+					if cl, ok := in.(*ssa.Call); ok {
+						if cal := cl.Call.StaticCallee(); cal != nil && isEncoderMethod(cal) && len(cl.Call.Args) >= 3 {
+							got = append(got, cal.Name()+"("+describeVal(cl.Call.Args[2], map[ssa.Value]string{}, 0)+")")
+						}
+					}
+				}
+			}
+			want := []string{"AppendBytes(*param:pfx.IP)", "AppendUint8(conv[uint8](extract0((net.IPMask).Size(*param:pfx.Mask))))"}
+			ok := strings.Join(got, "; ") == strings.Join(want, "; ")
+			why := "AppendIPPrefix writes the address bytes and the mask length of the value as given: " + strings.Join(got, "; ")
+			if !ok {
+				why = "AppendIPPrefix must write pfx.IP and the ones-count of pfx.Mask as given (the JSON build prints the same value with net.IPNet.String); it writes " + strings.Join(got, "; ")
+			}
+			s.oblige(pfxFn, "agreement", "network prefix payload", pfxFn.Pos(), ok, why)
+		}
+	}
 	r.notes = append(r.notes, fmt.Sprintf("agreement sweep [%s]: %d *Event methods with a single value-encoder call; %d Context/Array counterparts compared; %d Fields arms; %d slice encoders; structured methods left to their own contracts: %s", buildName(tags), nSimple, nFront, nArms, nElem, strings.Join(skipped, ", ")))
 	if nFront < 40 || nArms < 30 || nElem < 10 {
 		r.errors = append(r.errors, fmt.Sprintf("agreement sweep compared only %d front-end pairs, %d Fields arms, %d slice encoders", nFront, nArms, nElem))
